@@ -1,8 +1,12 @@
 package checks
 
 import (
+	"bufio"
 	"bytes"
 	"fmt"
+	"io"
+
+	"verif/mc/env"
 
 	"verif/mc/bind"
 	"verif/mc/core"
@@ -17,10 +21,10 @@ func init() {
 		ID:    "C09",
 		Title: "Frames the decoder must reject are rejected",
 		Level: "exploration",
-		Rule: "mutation of every frame of the valid corpus V (specification encoder; plus CONNECT frames with other protocol names/versions, which parse but are not v5.0; thorough adds frames with 127/128/255/256/16383/16384-byte strings) driven by the encoder's field map: " +
+		Rule: "mutation of every frame of the valid corpus V (specification encoder; plus CONNECT frames with other protocol names/versions, which parse but are not v5.0; plus frames in which a user property holding non-UTF-8 bytes directly precedes each property the type allows; thorough adds frames with 127/128/255/256/16383/16384-byte strings) driven by the encoder's field map: " +
 			"(a) every cut position strictly inside a two/four-byte integer, a string or binary (prefix or body), a multi-byte variable byte integer, or a property (between identifier and value), with the remaining length rewritten to the shortened size (PUBLISH payload exempt); " +
 			"(b) every variable-byte-integer position (remaining length, property length, subscription identifier) replaced by each 5-byte continuation {80,ff}^4 x {00,01,7f}, enclosing lengths adjusted; (c) every boolean property occurrence x every value 2..255; (d) every property position, will properties included, x all 229 identifiers MQTT v5.0 does not define. " +
-			"Every mutant is first confirmed to be rejected by the strict specification decoder (otherwise it is skipped and counted); ReadPacket must then return (nil, error) without panicking or exceeding the step budget. distinct_nontrivial = distinct mutants by content hash.",
+			"Every mutant is first confirmed to be rejected by the strict specification decoder (otherwise it is skipped and counted); ReadPacket must then return (nil, error) without panicking or exceeding the step budget - when the mutant is read alone from a bytes.Reader, from a bytes.Buffer, and as the second frame of a burst through a bufio.Reader (mutants of the remaining-length field also through a reader of own type with Peek/Discard and the plain scripted reader). distinct_nontrivial = distinct mutants by content hash.",
 		Assumptions: []string{
 			"'boolean property' = the seven properties the API exposes as bool; Maximum QoS (exposed as uint8) is not demanded",
 		},
@@ -29,16 +33,46 @@ func init() {
 	})
 }
 
-func c09Exec(class string, m []byte) *core.Finding {
+// c09Envs: how the mutant reaches ReadPacket. A decoder may treat readers
+// differently (concrete types, Peek/Discard), and a frame that arrives as
+// the second of a burst finds its header already buffered.
+var c09Envs = []string{"bytes.Reader", "bufio-burst", "bytes.Buffer", "rich-burst", "scripted"}
+
+func c09Open(envi int, m []byte) (io.Reader, bool) {
+	switch envi {
+	case 1, 3:
+		// the mutant follows a PINGREQ on the same buffered stream
+		stream := append([]byte{0xc0, 0x00}, m...)
+		var r io.Reader
+		if envi == 1 {
+			r = bufio.NewReaderSize(bytes.NewReader(stream), 4096)
+		} else {
+			r = env.Wrap(env.KRich, &env.Reader{Data: stream})
+		}
+		p, err, _ := readPacket(r, stepBudget(2))
+		return r, p != nil && err == nil
+	case 2:
+		return bytes.NewBuffer(append([]byte(nil), m...)), true
+	case 4:
+		return &env.Reader{Data: m}, true
+	}
+	return bytes.NewReader(m), true
+}
+
+func c09Exec(class string, m []byte, envi int) *core.Finding {
 	tname := "?"
 	if len(m) > 0 {
 		tname = bind.TypeNames[m[0]>>4]
 	}
 	resetGlobals()
-	p, err, res := readPacket(bytes.NewReader(m), stepBudget(len(m)))
+	r, ok := c09Open(envi, m)
+	if !ok {
+		return nil // the leading PINGREQ was not returned: C06's business, not a verdict on the mutant
+	}
+	p, err, res := readPacket(r, stepBudget(len(m)))
 	mk := func(c, what string) *core.Finding {
-		return &core.Finding{Class: class + "/" + c + "/" + tname, Sig: map[string]string{"mutation": class, "type": tname},
-			Detail: fmt.Sprintf("mutant (%s) % x: %s", class, clipBytes(m), what)}
+		return &core.Finding{Class: class + "/" + c + "/" + tname + "/" + c09Envs[envi], Sig: map[string]string{"mutation": class, "type": tname, "reader": c09Envs[envi]},
+			Detail: fmt.Sprintf("mutant (%s) % x read through %s: %s", class, clipBytes(m), c09Envs[envi], what)}
 	}
 	switch {
 	case res.Panic != "":
@@ -54,7 +88,7 @@ func c09Exec(class string, m []byte) *core.Finding {
 }
 
 func replayC09(c core.Case) *core.Finding {
-	return c09Exec(paramStr(c.Params, "mutation"), unhex(c.Frame))
+	return c09Exec(paramStr(c.Params, "mutation"), unhex(c.Frame), paramInt(c.Params, "env"))
 }
 
 var undefinedIDs = func() []byte {
@@ -88,6 +122,56 @@ func c09Corpus(x *core.Ctx) []VFrame {
 					continue
 				}
 				v = append(v, VFrame{B: b, Fields: fields, P: p, Name: fmt.Sprintf("CONNECT.%s.v%d.rich=%v", name, ver, rich)})
+			}
+		}
+	}
+	// frames whose strings hold bytes that are not UTF-8 (a decoder that
+	// repairs, rejects or re-measures such strings must still reject what
+	// follows them): a user property with such a key or value placed directly
+	// before each property the packet type allows, which then is the last of
+	// the section (and the same inside the will properties of a CONNECT)
+	for _, t := range allTypes {
+		for _, inWill := range []bool{false, true} {
+			if inWill && t != 1 {
+				continue
+			}
+			ids := spec.AllowedProps(t, inWill)
+			for _, bad := range [][]byte{{0xff}, {'v', 0xfe, 0xff}, {0xc0, 0x80}, {0xed, 0xa0, 0x80, 'x'}} {
+				for _, id := range ids {
+					kind, _, _ := spec.PropInfo(id)
+					pr := spec.Prop{ID: id}
+					switch kind {
+					case spec.KindByte, spec.KindU16, spec.KindU32, spec.KindVarint:
+						pr.N = 1
+					case spec.KindString, spec.KindBinary:
+						pr.B = []byte("s")
+					case spec.KindPair:
+						pr.B, pr.V = []byte("k2"), []byte("v2")
+					}
+					for _, inKey := range []bool{false, true} {
+						up := spec.Prop{ID: 0x26, B: []byte("k"), V: bad}
+						if inKey {
+							up = spec.Prop{ID: 0x26, B: bad, V: []byte("v")}
+						}
+						p := minimalPacket(t)
+						if inWill {
+							p.Will = &spec.Will{Topic: []byte("w"), Payload: []byte("x"), Props: []spec.Prop{up, pr}}
+						} else {
+							if len(ids) == 0 {
+								continue
+							}
+							p.Props = []spec.Prop{up, pr}
+						}
+						b, fields, err := spec.Encode(p, spec.Form{})
+						if err != nil {
+							continue
+						}
+						if _, _, n, derr := spec.Decode(b, false); derr != nil || n != len(b) {
+							continue
+						}
+						v = append(v, VFrame{B: b, Fields: fields, P: p, Name: fmt.Sprintf("%s.nonutf8(% x).before.%#02x.will=%v", bind.TypeNames[t], bad, id, inWill)})
+					}
+				}
 			}
 		}
 	}
@@ -144,10 +228,18 @@ func runC09(x *core.Ctx) {
 		x.Eval(class)
 		x.Distinct(core.Hash([]byte(class), m))
 		x.Sample(class, 2, func() any { return map[string]any{"mutant": hexOf(clipBytes(m))} })
-		if f := c09Exec(class, m); f != nil {
-			mm := append([]byte{}, m...)
-			x.Report(f, func() core.Case { return core.Case{Harness: "c09", Frame: hexOf(mm), Params: map[string]any{"mutation": class}} },
-				func() *core.Finding { return c09Exec(class, mm) })
+		for envi := range c09Envs {
+			if envi >= 3 && class != "b.5byte-remlen" {
+				break // the last two environments differ from the first three only before the body is decoded
+			}
+			if f := c09Exec(class, m, envi); f != nil {
+				mm := append([]byte{}, m...)
+				envi := envi
+				x.Report(f, func() core.Case {
+					return core.Case{Harness: "c09", Frame: hexOf(mm), Params: map[string]any{"mutation": class, "env": envi}}
+				},
+					func() *core.Finding { return c09Exec(class, mm, envi) })
+			}
 		}
 	}
 	for _, v := range c09Corpus(x) {
